@@ -37,7 +37,7 @@ Pushable(pl, i) == LET n == pl[i] IN
   /\ \A k \in 1..Len(n.args) : Pushable(pl, n.args[k])
 \* scalar-only subtrees (literals, time()) are not sent anywhere
 RECURSIVE HasSelector(_, _)
-HasSelector(pl, i) == pl[i].op \in {"sel", "rfn"} \/ \E k \in 1..Len(pl[i].args) : HasSelector(pl, pl[i].args[k])
+HasSelector(pl, i) == pl[i].op \in {"sel", "rfn", "const"} \/ \E k \in 1..Len(pl[i].args) : HasSelector(pl, pl[i].args[k])
 
 \* ---- data and partitions
 Labels == << << <<"__name__","m">>, <<"a","x">>, <<"b","1">> >>, << <<"__name__","m">>, <<"a","x">>, <<"b","2">> >>,
@@ -82,7 +82,17 @@ Plans == <<
   <<Sel(<<Metric("m")>>), Agg("min", TRUE, <<"a", "b">>, <<1>>), Agg("max", FALSE, <<"b">>, <<2>>), Agg("min", TRUE, <<>>, <<3>>)>>,
   <<Sel(<<Metric("m")>>), Num(1), Agg("topk", TRUE, <<"a">>, <<2, 1>>), Num(2), Agg("topk", TRUE, <<>>, <<4, 3>>)>>,
   <<Sel(<<Metric("m")>>), Agg("group", TRUE, <<"b">>, <<1>>), Agg("group", TRUE, <<>>, <<2>>), Agg("count", TRUE, <<>>, <<3>>)>>,
-  <<Sel(<<Metric("m")>>), Agg("avg", TRUE, <<"b">>, <<1>>), Agg("count", TRUE, <<>>, <<2>>)>> >>
+  <<Sel(<<Metric("m")>>), Agg("avg", TRUE, <<"b">>, <<1>>), Agg("count", TRUE, <<>>, <<2>>)>>,
+  \* operands that select no series (every engine would answer them for itself), scalar(), selecting parameters
+  <<Fn("time", <<>>), Fn("vector", <<1>>), Agg("sum", TRUE, <<>>, <<2>>)>>,
+  <<Num(1), Fn("vector", <<1>>), Agg("count", TRUE, <<>>, <<2>>)>>,
+  <<Sel(<<Metric("m")>>), Agg("sum", TRUE, <<>>, <<1>>), Fn("time", <<>>), Fn("vector", <<3>>), Agg("sum", TRUE, <<>>, <<4>>),
+    BinM("-", 2, 5, FALSE, "1:1", TRUE, <<>>, <<>>)>>,
+  <<Sel(<<Metric("m")>>), Agg("count", TRUE, <<"b">>, <<1>>), Fn("time", <<>>), Fn("vector", <<3>>), Agg("count", TRUE, <<>>, <<4>>),
+    BinM("/", 2, 5, FALSE, "N:1", TRUE, <<>>, <<>>)>>,
+  <<Sel(<<Metric("m")>>), Sel(<<Metric("m")>>), Agg("sum", TRUE, <<>>, <<2>>), Fn("scalar", <<3>>), Bin("*", 1, 4)>>,
+  <<Sel(<<Metric("m")>>), Agg("count", TRUE, <<>>, <<1>>), Fn("scalar", <<2>>), Sel(<<Metric("m")>>), Agg("topk", TRUE, <<"a">>, <<3, 4>>)>>,
+  <<Sel(<<Metric("m")>>), Agg("sum", TRUE, <<"a">>, <<1>>), Fn("time", <<>>), Bin("-", 2, 3)>> >>
 
 Init == g \in [p : 1..Len(Plans), asg : [1..NSeries -> Engines], win : {"instant", "range"}]
 Next == UNCHANGED g
@@ -108,6 +118,9 @@ IsDistributive(pl, j) == pl[j].op # "bin" /\ (pl[j].op = "agg" => pl[j].fn \in D
 Transform(x, pl, parent, i) ==
   LET n == pl[i] IN
   IF ~IsDistributive(pl, i) THEN R(pl, TRUE)
+  \* an expression that selects no series (time(), vector(1), ...) is the same everywhere: it is not sent anywhere on
+  \* its own, the traversal goes on above it
+  ELSE IF ~HasSelector(pl, i) THEN R(pl, FALSE)
   ELSE IF n.op = "agg" THEN
        \* agg'(coalesce(remote(agg ...))): the operand slot becomes the concatenated partial results
        LET k == n.args[Len(n.args)]
@@ -120,7 +133,13 @@ RECURSIVE TB(_, _, _, _)
 TB(x, pl, parent, i) ==
   LET n == pl[i] IN
   CASE n.op \in {"sel", "rfn"} -> Transform(x, pl, parent, i)
-    [] n.op = "agg" -> LET r == TB(x, pl, i, n.args[Len(n.args)]) IN IF r.stop THEN r ELSE Transform(x, r.pl, parent, i)
+    \* (a parameter that selects series is an expression of its own: topk(scalar(x), y))
+    [] n.op = "agg" -> LET r == TB(x, pl, i, n.args[Len(n.args)]) IN
+                       IF r.stop THEN r
+                       ELSE LET r2 == IF Len(n.args) = 2 /\ HasSelector(r.pl, n.args[1]) THEN TB(x, r.pl, i, n.args[1]) ELSE r
+                            IN IF r2.stop THEN r2 ELSE Transform(x, r2.pl, parent, i)
+    \* scalar() depends on the number of series in the whole data set: nothing below it is rewritten on its own
+    [] n.op = "fn" /\ n.fn = "scalar" -> R(pl, TRUE)
     [] n.op = "fn" ->
          LET RECURSIVE Args(_, _)
              Args(r, k) == IF k > Len(n.args) \/ r.stop THEN r ELSE Args(TB(x, r.pl, i, n.args[k]), k + 1)
